@@ -1,4 +1,5 @@
 import OmplModel.Model.PlannerProto
+import OmplModel.Model.PlannerProtoPrm
 import OmplModel.Driver.Common
 /-! Line-protocol driver for the planner protocol machine with the RRT-like core (`proto core=rrt`).
 
@@ -21,12 +22,11 @@ def params : Params S Float :=
 
 abbrev Mach := M S Float (Tree S)
 
-/-- which core the script runs: the geometric RRT-like core or control RRT with intermediate states -/
-structure St where
-  ctl : Bool
-  /-- propagation step size (control core): `PathControl::length()` is the sum of the control durations -/
-  dt : Float
-  m : Mach
+/-- which core the script runs: the geometric RRT-like core, control RRT with intermediate states (with its
+propagation step size: `PathControl::length()` is the sum of the control durations), or PRM's query bookkeeping -/
+inductive St where
+  | tree (ctl : Bool) (dt : Float) (m : Mach)
+  | prm (p : Prm.Prm)
 
 /-- control core: every non-root motion has `steps = 1`, so each path segment lasts one propagation step;
 `std::accumulate(durations, 0.0)` -/
@@ -35,10 +35,11 @@ def paramsCtl (dt : Float) : Params S Float :=
 
 def init (ts : List String) : Option St :=
   match ts with
-  | ["proto", "core=rrt"] => some ⟨false, 0.0, M.init (rrtCore : CoreSpec S Float (Draw S Float) (Tree S))⟩
+  | ["proto", "core=prm"] => some (.prm {})
+  | ["proto", "core=rrt"] => some (.tree false 0.0 (M.init (rrtCore : CoreSpec S Float (Draw S Float) (Tree S))))
   | ["proto", "core=crrt", dt] =>
     match parseFloatBits? dt with
-    | some dt => some ⟨true, dt, M.init (crrtCore : CoreSpec S Float (CDraw S Float) (Tree S))⟩
+    | some dt => some (.tree true dt (M.init (crrtCore : CoreSpec S Float (CDraw S Float) (Tree S))))
     | none => none
   | _ => none
 
@@ -196,12 +197,64 @@ def stepG {D : Type} (cs : CoreSpec S Float D (Tree S)) (params : Params S Float
     | _, _ => (m, "bad-op")
   | _ => (m, "bad-op")
 
+def pBool? (t : String) : Option Bool := if t = "1" then some true else if t = "0" then some false else none
+
+/-- `<nstarts> <valid>*nstarts <gvalid>` -/
+def pQuery? (ts : List String) : Option (List Bool × Bool) :=
+  match takeCounted ts with
+  | some (vs, [g]) =>
+    match vs.mapM pBool?, pBool? g with
+    | some ss, some g => some (ss, g)
+    | _, _ => none
+  | _ => none
+
+def stepPrm (p : Prm.Prm) (ts : List String) : Prm.Prm × String :=
+  let show_ (name : String) (q : Prm.Prm) : Prm.Prm × String :=
+    (q, s!"{name} starts={q.startM.length} goals={q.goalM.length}")
+  match ts with
+  | "setpd" :: id :: rest =>
+    match parseNat? id, pQuery? rest with
+    | some id, some (ss, g) => show_ "setpd" (Prm.step p (.setProblemDefinition ⟨id, ss, g⟩))
+    | _, _ => (p, "bad-op")
+  | "mutpd" :: rest =>
+    match pQuery? rest, p.pdef with
+    | some (ss, g), some pd =>
+      show_ "mutpd" (Prm.step (Prm.step p (.mutate ss g)) (.setProblemDefinition ⟨pd.id, ss, g⟩))
+    | _, _ => (p, "bad-op")
+  | "setsg" :: rest =>
+    match pQuery? rest with
+    | some (ss, g) => if p.pdef.isSome then show_ "setsg" (Prm.step p (.mutate ss g)) else (p, "bad-op")
+    | none => (p, "bad-op")
+  | ["addstart", v] =>
+    match pBool? v with
+    | some v => if p.pdef.isSome then show_ "addstart" (Prm.step p (.addStart v)) else (p, "bad-op")
+    | none => (p, "bad-op")
+  | ["solve", g] =>
+    match parseNat? g with
+    | some g =>
+      let r := Prm.solve p g
+      let st := match r.2 with
+        | .noPdef => "no-pdef"
+        | .invalidStart => "INVALID_START"
+        | .invalidGoal => "INVALID_GOAL"
+        | .ran => "ran"
+      (r.1, s!"solve st={st} starts={r.1.startM.length} goals={r.1.goalM.length}")
+    | none => (p, "bad-op")
+  | ["clear"] => show_ "clear" (Prm.step p .clear)
+  | ["clearQuery"] => show_ "clearQuery" (Prm.step p .clearQuery)
+  | ["getpd"] => show_ "getpd" p
+  | _ => (p, "bad-op")
+
 def step (st : St) (ts : List String) : St × String :=
-  if st.ctl then
-    let (m', out) := stepG (crrtCore : CoreSpec S Float (CDraw S Float) (Tree S)) (paramsCtl st.dt) pCDraws? st.m ts
-    ({ st with m := m' }, out)
-  else
-    let (m', out) := stepG (rrtCore : CoreSpec S Float (Draw S Float) (Tree S)) params pDraws? st.m ts
-    ({ st with m := m' }, out)
+  match st with
+  | .prm p =>
+    let (p', out) := stepPrm p ts
+    (.prm p', out)
+  | .tree true dt m =>
+    let (m', out) := stepG (crrtCore : CoreSpec S Float (CDraw S Float) (Tree S)) (paramsCtl dt) pCDraws? m ts
+    (.tree true dt m', out)
+  | .tree false dt m =>
+    let (m', out) := stepG (rrtCore : CoreSpec S Float (Draw S Float) (Tree S)) params pDraws? m ts
+    (.tree false dt m', out)
 
 end OmplModel.Driver.PlannerProtoDrv
